@@ -557,7 +557,7 @@ func checkC10(c *core.Ctx) error {
 	c.Rule("C10.R1", "header identities: T() transposes the index map and the dimensions; SLICE shifts it by (r0,c0) and sets the dimensions (r1-r0, c1-c0); for both values of transposed", 72)
 	c.Rule("C10.R2", "row/column/diagonal accessors address element k at idx_h(i,k) / idx_h(k,j) / idx_h(k,k); contiguous sub-slices start at index() and are used only in the branch of transposed where they are contiguous; copying accessors allocate", 100)
 	c.Rule("C10.R3", "index() tests 0<=i<rows and 0<=j<cols and the test dominates the offset computation", 18)
-	c.Rule("C10.R4", "storage geometry (values, offsets, maxima, transposed) is used only in the indexing layer or as values[index(i,j)]; any other use cannot be correct for a sliced or transposed receiver", 190)
+	c.Rule("C10.R4", "storage geometry (values, offsets, maxima, transposed) is used only in the indexing layer or as values[index(i,j)]; any other use cannot be correct for a sliced or transposed receiver", 170)
 	c.Rule("C10.R5", "encoders (MarshalJSON/Export) emit raw storage only under a test that implies the receiver owns its whole storage (not transposed, rows = rowMax, cols = colMax)", 18)
 	pkg := c.Root
 	dense, sparse := matrixTypes(pkg)
@@ -1116,7 +1116,8 @@ func checkGeometryAccess(c *core.Ctx, pkg *packages.Package, dense, sparse []str
 			case "MarshalJSON":
 				return true // view test and re-pack decided by C10.R5
 			case "AsDenseReal64Vector", "AsDenseReal32Vector", "AsSparseFloat64Vector", "AsSparseFloat32Vector", "AsSparseIntVector", "AsSparseInt8Vector",
-				"AsSparseInt16Vector", "AsSparseInt32Vector", "AsSparseInt64Vector", "AsSparseReal32Vector", "AsSparseReal64Vector":
+				"AsSparseInt16Vector", "AsSparseInt32Vector", "AsSparseInt64Vector", "AsSparseReal32Vector", "AsSparseReal64Vector",
+				"AsVector", "AsConstVector":
 				// the raw storage is handed out only in the else-branch of a complete view test (same predicate as the encoders, R5)
 				if asVectorViewTestComplete(pkg, fd, strings.HasPrefix(T, "Dense")) {
 					return true
@@ -1236,6 +1237,13 @@ func asVectorViewTestComplete(pkg *packages.Package, fd *ast.FuncDecl, isDense b
 	// no use of the raw storage in the view branch
 	raw := false
 	ast.Inspect(is.Body, func(n ast.Node) bool {
+		if ix, ok := n.(*ast.IndexExpr); ok {
+			if se, ok := ast.Unparen(ix.X).(*ast.SelectorExpr); ok && se.Sel.Name == "values" {
+				if ce, ok := ast.Unparen(ix.Index).(*ast.CallExpr); ok && calleeName(ce) == "index" {
+					return false // values[X.index(i, j)]: addressed through the indexing layer
+				}
+			}
+		}
 		if se, ok := n.(*ast.SelectorExpr); ok && se.Sel.Name == "values" {
 			raw = true
 		}
